@@ -23,6 +23,9 @@ import (
 	"metacontroller/pkg/logging"
 )
 
+// DiscoveryRefresh is the refresh interval of the discovery cache of worlds created next (an hour: never in a run).
+var DiscoveryRefresh = time.Hour
+
 func init() {
 	// every verbosity level is ON (rendered and dropped), so that code guarded by Logger.V(n).Enabled() -- the diff log of
 	// updateChildren, the request/response log of the webhook executor -- runs in every replay
@@ -82,7 +85,7 @@ func NewWorld(srv *Server, actor string, resync time.Duration) (*World, error) {
 		return nil, err
 	}
 	w.Resources = dynamicdiscovery.NewResourceMap(dc)
-	w.Resources.Start(time.Hour)
+	w.Resources.Start(DiscoveryRefresh)
 	deadline := time.Now().Add(10 * time.Second)
 	for !w.Resources.HasSynced() {
 		if time.Now().After(deadline) {
